@@ -585,7 +585,7 @@ TEXT = {
                 technique='TLA+ WireCli model-checked by TLC; TLC-generated histories replayed; file contents projected by byte comparison with from-scratch generations; validated by TLC (WireCliTrace)'),
     'C19': dict(level='model_checking: gen and check are run on every program of six families and judged by TLC against one WireSem verdict (incl. ill-formed set variables no injector uses); wire show is parsed and compared by TLC with WireShow (includes, output groups by external inputs, injectors); CLI histories with CkCheck.',
                 technique=_TECH_STATIC + ' + WireShow + WireCliTrace(CkCheck)'),
-    'C20': dict(level='exploration: WireFront enumerates marker x argument position x expression form (all type-correct because the markers take interface{}) plus whole-file shapes; each is run under gen and check; TLC judges the outcome domain (exit 0, or diagnostics with a position; no panic, hang or silent failure).',
+    'C20': dict(level='exploration: WireFront enumerates marker x argument position x expression form (all type-correct because the markers take interface{}) plus whole-file shapes; each is run under gen and check, and the programs of the semantic families (X, G, M, B, G-split) under gen, check and show; TLC judges the outcome domain (exit 0, or diagnostics with a position; no panic, hang or silent failure).',
                 technique='TLC-enumerated front-end form table (WireFront), rendered, real wire gen/check per package with crash isolation, outcomes judged by TLC (WireJudge)'),
 }
 for _k in TEXT:
